@@ -48,6 +48,8 @@ ASSUMPTIONS = [
     "receive lock is parked by the harness until another thread acts or time passes (stuttering)",
     "BgServingThread's sleep is an abstract always-enabled step in the model (any sleep duration)",
     "a caller blocked after its reply was processed (C14 / F3) is not a C13 failure: no data is pending then",
+    "by-reference results: proxies are kept alive until the end of a run, so their finalizers' HANDLE_DEL notices "
+    "(C10's subject) do not occur inside the schedules",
 ]
 EXPLANATION = (
     "Theorems over all reachable states of the interleaving machine (any number of client and background threads, "
@@ -82,6 +84,9 @@ CONFIGS = {
     "2c+poller": dict(clients=[[None], [5]], pollers=[["ready"]]),
     "2c+poller+bg-eof": dict(clients=[[None], [4]], pollers=[[0, "ready", 2]], bg=True, eof=True),
     "1c+2pollers-tick": dict(clients=[[3, None]], pollers=[[1, 0], ["ready", "ready"]], early_tick=True),
+    # results that travel by reference (proxies) on a connection with a DEBUG logger and a real handler
+    "2c+bg-byref-log": dict(clients=[[None], [6]], bg=True, byref=True, logger=True),
+    "2c+poller-byref-log-eof": dict(clients=[[5], [None]], pollers=[[0, "ready"]], byref=True, logger=True, eof=True),
 }
 
 # directed schedules with a polling thread as the receiver: the poller holds the receive lock while a caller
@@ -291,7 +296,7 @@ BOUNDARY = [
 
 def oracle_search(ctx, corr, broken):
     env = ss.locate_statements()
-    deadline = time.time() + ctx.budget(40, 600)
+    deadline = time.time() + ctx.budget(28, 600)
     known = getattr(ctx, "known_signatures", set())
 
     def examine(case, choices, park_all):
